@@ -142,8 +142,13 @@ def run(pid, spec, tier, seed, wd, only, rebase, t_start):
                     loop_contracts=js.get('loop_contracts', False), unwind_first=js.get('unwind_first'),
                     cbmc_flags=js.get('cbmc_flags', []), defines=defines, timeout=js.get('timeout', 600), spec=js, known=set(sigs))
         built.append(job)
+    def run_one(job):
+        lost = [n for n in job.spec.get('bodies', []) if getattr(extracted[n], 'no_loops', False)]
+        if job.loop_contracts and lost:
+            return {'status': 'undecided', 'reason': 'loop contracts of %s could not be placed (loop structure changed)' % ', '.join(lost), 'log': '', 'results': [], 'wall': 0.0, 'cmd': ''}
+        return D.run_job(job)
     with ThreadPoolExecutor(max_workers=int(os.environ.get('VERIF_JOBS', '16'))) as ex:
-        results = list(ex.map(D.run_job, built))
+        results = list(ex.map(run_one, built))
 
     baseline = json.load(open(BASELINE_FILE)) if os.path.exists(BASELINE_FILE) else {}
     base_p = baseline.get(pid, {})
